@@ -242,6 +242,7 @@ let handle_mset (r : reader) : unit =
   let dump () =
     out_int (List.length !st.ents0);
     List.iter (fun e -> out_n e.e_id; out_s (" " ^ status_str e.e_st); let (d, l) = e.e_moc in out_n d; out_ranges l) !st.ents0;
+    out_s " C"; out_n !st.cap;
     out_s " ;" in
   out_s "OK";
   for _ = 1 to ncmds do
@@ -564,6 +565,16 @@ let handle (r : reader) : unit =
       (match moc_cells_o Hpx w d l with
        | Some cells -> out_s "OK"; out_hex (fits_write_nuniq w d cells)
        | None -> out_s "ERR cells-fuel")
+  | "MSETB" ->
+      (* MSETB n128 k (id status depth ranges)* -> the bytes of the moc-set file of that state (Model/MocSetBytes.v) *)
+      let n128 = next_n r in
+      let ents = next_list r (fun r ->
+        let id = next_n r in
+        let s0 = status_of (next r) in
+        let d = next_n r in
+        let l = next_ranges r in
+        { e_st = s0; e_id = id; e_moc = (d, l) }) in
+      out_s "OK"; out_hex (file_bytes n128 ents)
   | "HIST" -> handle_hist r
   | "MSET" -> handle_mset r
   | "TEXTV" ->
